@@ -1,4 +1,5 @@
 import PGT.Model.Schema
+import PGT.Generated.Builtins
 /-
 C13 – Separate-package generation behaves like same-package generation (IR-level part).
 -/
@@ -9,6 +10,10 @@ open PGT
 theorem C13_same_package (ov : List (String × String)) (t : String) :
     prependPackageNameIfMissing ov t "" = t := by
   simp [prependPackageNameIfMissing]
+
+/-- **the list of predeclared type names is the one in the source** (table T6, regenerated from `Imports.isBuiltinType` on
+every run): `int` and `uint` without a size are in it like the sized ones -/
+theorem C13_builtin_table : Generated.builtinTypes = builtinTypeNames := by decide
 
 /-- builtin types are never qualified -/
 theorem C13_builtin (ov : List (String × String)) (t pkg : String) (h : isBuiltinType (typAndMod t).1 = true) :
